@@ -158,6 +158,33 @@ ReplaceAmountCases(tier) ==
             cmds |-> <<[kind |-> "replace", amt |-> A[ai], body |-> B[bi], with |-> W[wi]]>>,
             sigma |-> <<ba, bb, nl>>, lo |-> 1, hi |-> IF tier = "quick" THEN 4 ELSE 5]]
 
+(* numbers with two digits: quantifier bounds, match numbers, offsets, lines, *)
+(* columns, amounts -- on explicit longer texts                              *)
+Rep(b, n) == [j \in 1..n |-> b]
+LargeTexts == {Rep(ba, n) : n \in 0..14} \cup {Rep(ba, n) \o <<bb>> \o Rep(ba, m) : n \in {0, 5, 9, 10, 11, 12}, m \in {0, 5, 9, 10, 11, 12}}
+                \cup {Rep(ba, 6) \o <<bb>> \o Rep(ba, 6) \o <<bb>>, Cat([j \in 1..7 |-> <<ba, bb>>])}
+LargeBodies ==
+  { <<Loop(12, 12, FALSE, La)>>, <<Loop(9, 11, FALSE, La)>>, <<Loop(9, 11, TRUE, La), Lb>>, <<Loop(10, -1, FALSE, In(<<La, Lb>>))>>,
+    <<Loop(0, 10, FALSE, La), La>>, <<Loop(0, 10, TRUE, La), Lb>>, <<Lit(Rep(ba, 6))>>, <<Lit(Rep(ba, 5)), Loop(0, 1, FALSE, Lb)>>,
+    <<Or(Lit(Rep(ba, 4)), Or(Lit(Rep(ba, 3)), Or(Lit(Rep(ba, 2)), La)))>>, <<In(<<Lc, Lit(<<100>>), Lit(<<101>>), Lit(<<102>>), Lb, La>>)>>,
+    <<Cap("x", Grp(<<Loop(5, -1, FALSE, La)>>)), Lb, Ref("x")>>, <<Loop(11, -1, FALSE, Cap("x", La)), Lb>>,
+    <<Grp(<<Grp(<<Grp(<<Grp(<<Loop(1, -1, FALSE, La)>>)>>)>>)>>), Lb>>, <<Loop(2, 2, FALSE, Grp(<<Loop(5, 5, FALSE, La)>>))>> }
+LargeCases ==
+  LET B == SetToSeq(LargeBodies) T == SetToSeq(LargeTexts)
+  IN [i \in 1..Len(B) |-> [id |-> 300000 + i, defs |-> <<>>, cmds |-> <<FindAllCmd(B[i])>>, texts |-> T]]
+LargeAmountCases ==
+  LET A == SetToSeq({[k |-> "skip", s |-> 9], [k |-> "skip", s |-> 10], [k |-> "skip", s |-> 12], [k |-> "take", n |-> 10], [k |-> "top", n |-> 11],
+                     [k |-> "skiptake", s |-> 9, t |-> 3], [k |-> "skiptake", s |-> 10, t |-> 10], [k |-> "last", n |-> 10], [k |-> "last", n |-> 12],
+                     [k |-> "last", n |-> 1], [k |-> "all"]})
+      T == <<Rep(ba, 9), Rep(ba, 10), Rep(ba, 11), Rep(ba, 12), Rep(ba, 13), Cat([j \in 1..12 |-> <<ba, nl>>]), Cat([j \in 1..11 |-> <<ba, bb>>])>>
+  IN [i \in 1..(2 * Len(A)) |->
+        LET ai == ((i - 1) % Len(A)) + 1 IN
+        [id |-> 310000 + i, defs |-> <<>>, trans |-> C05_Trans,
+         cmds |-> <<[kind |-> IF i > Len(A) THEN "replace" ELSE "find", amt |-> A[ai], body |-> <<Cap("x", La)>>,
+                     with |-> <<WName("matchNumber"), WStr(<<58>>), WName("lineNumber"), WStr(<<58>>), WName("columnNumber"), WStr(<<58>>),
+                                WName("startOffset"), WStr(<<45>>), WName("endOffset"), WStr(<<47>>), WName("totalMatches"), WName("tinc")>>]>>,
+         texts |-> T]]
+
 CasesOf(fam, tier) ==
   CASE fam = "C01"  -> LET A0 == BodySeqCases(C01_Bodies(tier), tier)
                            \* the depth-3 bodies of the thorough tier run on the shorter texts
@@ -165,13 +192,13 @@ CasesOf(fam, tier) ==
                                                        THEN [A0[i] EXCEPT !.hi = LenFor({A0[i].sigma[j] : j \in 1..Len(A0[i].sigma)}, "quick")]
                                                        ELSE A0[i]]
                            Gc == GlobalSeqCases(C01_GlobalCases, tier, Len(A))
-                       IN [i \in 1..Len(A) |-> WithReplace(A[i], 7)] \o Gc \o ClassTableCases(Len(A) + Len(Gc))
+                       IN [i \in 1..Len(A) |-> WithReplace(A[i], 7)] \o Gc \o ClassTableCases(Len(A) + Len(Gc)) \o LargeCases
     [] fam = "C02"  -> BodySeqCases(C02_Bodies, tier)
     [] fam = "C03N" -> BodySeqCases(C03_NamedBodies, tier)
     [] fam = "C02N" -> BodySeqCases(C03_NamedBodies, tier)
     [] fam = "C03W" -> BodySeqCases(C03_WholeBodies, tier)
-    [] fam = "C04"  -> AmountCases(C04_BodiesQ, tier)
-    [] fam = "C05"  -> ReplaceCases(tier) \o ReplaceAmountCases(tier)
+    [] fam = "C04"  -> AmountCases(C04_BodiesQ, tier) \o LargeAmountCases
+    [] fam = "C05"  -> ReplaceCases(tier) \o ReplaceAmountCases(tier) \o LargeAmountCases
     [] fam = "C06"  -> FileCases(tier)
     [] fam = "C13"  -> TransparentCases(tier)
     [] fam = "C09"  -> CrashCases(tier)
